@@ -3,7 +3,7 @@ CONSTANTS
   LibName = "ver2"
   NodeIds = {1, 2, 3, 4}
   OpKinds = {"instantiate", "export"}
-  InitReg = {"q1", "q2", "q3", "q4"}
+  InitReg = {"q1", "q2", "q3", "q4", "q5", "q6"}
   DEV_StaleSat = FALSE
   DEV_StaleExports = FALSE
   DEV_DoubleRemove = FALSE
